@@ -1,5 +1,6 @@
 import Std.Data.HashMap
 import Driver.Util
+import Driver.C01
 import Driver.C03
 import Driver.C06
 import Driver.C11
@@ -11,7 +12,8 @@ import Driver.Smb
 open Driver
 
 def allEntries : List Entry :=
-  Driver.C03.entries
+  Driver.C01.entries
+  ++ Driver.C03.entries
   ++ Driver.C06.entries
   ++ Driver.C11.entries
   ++ Driver.C12.entries
